@@ -168,8 +168,26 @@ struct NodeH {
     task: tokio::task::JoinHandle<()>,
 }
 
+/// Scheduling-lag canary: a timer task that records how late its 50 ms ticks fire. If the runtime
+/// was starved for more than 400 ms at any point the world is not judged (an outcome could have
+/// been delayed past the quiet period by load, not by litep2p).
+fn canary() -> (Arc<AtomicU64>, tokio::task::JoinHandle<()>) {
+    let worst = Arc::new(AtomicU64::new(0));
+    let w2 = worst.clone();
+    let h = tokio::spawn(async move {
+        loop {
+            let t = std::time::Instant::now();
+            tokio::time::sleep(Duration::from_millis(50)).await;
+            let late = t.elapsed().as_millis().saturating_sub(50) as u64;
+            w2.fetch_max(late, Ordering::Relaxed);
+        }
+    });
+    (worst, h)
+}
+
 async fn run_world(w: usize, seed: u64, steps: usize) -> Vec<String> {
     let mut rng = StdRng::seed_from_u64(seed);
+    let (lag, canary_task) = canary();
     let names = Arc::new(Mutex::new(HashMap::new()));
     let anames = Arc::new(Mutex::new(HashMap::new()));
     let lims = [(None, None), (Some(1), Some(1)), (Some(2), Some(1)), (Some(1), Some(2)), (None, Some(1)), (Some(0), None)];
@@ -264,7 +282,7 @@ async fn run_world(w: usize, seed: u64, steps: usize) -> Vec<String> {
         tokio::time::sleep(Duration::from_millis([0u64, 0, 5, 30, 200, 900][rng.gen_range(0..6)])).await;
     }
     // quiescence: every timeout on a dial path is <= 2 x 1 s (dial deadline) + negotiation 1 s;
-    // wait until no node logged anything for 5 s (>= 3x slack on the longest single timeout)
+    // wait until no node logged anything for 8 s (>= 3x slack on the longest single timeout)
     let total = |nodes: &Vec<NodeH>| nodes.iter().map(|n| n.log.lock().unwrap().len()).sum::<usize>();
     let mut last = total(&nodes);
     let mut quiet = 0;
@@ -277,11 +295,11 @@ async fn run_world(w: usize, seed: u64, steps: usize) -> Vec<String> {
             quiet = 0;
             last = t;
         }
-        if quiet >= 10 {
+        if quiet >= 16 {
             break;
         }
     }
-    let settled = quiet >= 10;
+    let settled = quiet >= 16 && lag.load(Ordering::Relaxed) <= 400;
     for n in &nodes {
         n.log.lock().unwrap().push(json!({"e": if settled { "quiesce" } else { "unsettled" }}));
     }
@@ -307,12 +325,13 @@ async fn run_world(w: usize, seed: u64, steps: usize) -> Vec<String> {
                 quiet = 0;
                 last = t;
             }
-            if quiet >= 10 {
+            if quiet >= 16 {
                 break;
             }
         }
+        let ok = quiet >= 16 && lag.load(Ordering::Relaxed) <= 400;
         for n in &nodes {
-            n.log.lock().unwrap().push(json!({"e": if quiet >= 10 { "quiesce" } else { "unsettled" }}));
+            n.log.lock().unwrap().push(json!({"e": if ok { "quiesce" } else { "unsettled" }}));
         }
     }
     let mut out = vec![];
@@ -331,6 +350,7 @@ async fn run_world(w: usize, seed: u64, steps: usize) -> Vec<String> {
     for g in guards {
         g.abort();
     }
+    canary_task.abort();
     out
 }
 
